@@ -22,6 +22,35 @@ def settings_starts(rng, m):
             "det": 1, "repeat": 4, "snap": 1, "jitter": rng.choice([1, 3])}
 
 
+def two_resource_cases(seed, n):
+    import random
+    import gen_engine as G
+    rng = random.Random(seed)
+    cases = []
+    for i in range(n):
+        m = G.gen_model(rng, "small", {"capacity": True, "precedence": False, "windows": False, "maxstops": False, "maxdist": False,
+                                        "attrs": False, "maxwait_stop": False, "maxwait_veh": False, "endtime": False, "maxdur": False,
+                                        "dgroups": False, "objx": False, "mult": False, "nonmetric": True, "one_vehicle": True,
+                                        "penalties": False, "activation": False, "no_startloc": False})
+        m["nres"], m["res_mode"] = 2, "map"
+        for k, s in enumerate(m["stops"]):
+            s["quantity"] = [-1, 1 if k % 2 else -1]
+        for ve in m["vehicles"]:
+            ve["capacity"] = [rng.randint(2, 3), 3]
+            ve["start_level"] = [0, 1]
+        size = len(m["dur"])
+        for a in range(size):
+            for b in range(a, size):
+                m["dur"][a][b] = m["dur"][b][a] = 0 if a == b else rng.choice([30, 30, 60])
+        for k in m["opts"]:
+            if k.startswith("dis_"):
+                m["opts"][k] = False
+        m["opts"].update({"f_activation": 0, "f_travel": 1, "f_vehicles_duration": 1, "f_unplanned": 1})
+        cases.append({"id": "m%d" % i, "model": m, "settings": {"iterations": rng.choice([20, 60]), "duration_ms": 20000, "runs": 1, "starts": 0,
+                                                                 "det": 1, "repeat": 16, "snap": 1}})
+    return cases
+
+
 def compare_reps(chk, runs, cases):
     byid = {c["id"]: c for c in cases}
     groups = {}
@@ -88,6 +117,16 @@ def run(tier, seed, replay=None):
     nd3, ng3 = compare_reps(chk, runs3, cases3)
     chk.ob("5 repetitions identical on %d inputs with initial stops (%d with two or more initial stops on a vehicle)"
            % (ng3, sum(1 for c in cases3 if any(len(ve.get("initial") or []) >= 2 for ve in c["model"]["vehicles"]))), nd3 == 0)
+    # two capacity resources whose violated estimates give different hints (one consumed by every stop: "skip the vehicle";
+    # one with both signs and a start level: no hint), one small vehicle, tie-rich symmetric integer matrix: the order in which the
+    # factory adds the per-resource constraints decides how many tie-break draws a best-move search consumes (defect repaired by the
+    # fix that adds them in the order of the resource names); the model is rebuilt for every repetition
+    n4 = 25 if tier == "quick" else 300
+    cases4 = two_resource_cases(seed * 31 + 12121212, n4)
+    runs4, rc4, err4 = S.run_solve(cases4, "c12m_" + tier, timeout=3000)
+    chk.ob("harness solve (two capacity resources) exits normally", rc4 == 0, err4[-400:])
+    nd4, ng4 = compare_reps(chk, runs4, cases4)
+    chk.ob("16 repetitions (model rebuilt each time) identical on %d inputs with two capacity resources of different kinds" % ng4, nd4 == 0)
     multi = sum(1 for c in cases if any(len(u["orders"]) > 1 for u in c["model"]["units"]))
     chk.ev.cov.update({
         "evaluations": len(runs), "distinct_nontrivial": multi,
